@@ -142,12 +142,36 @@ def check(ctx, name, operands, impl_fn, torch_fn, exact, reqs, meta):
         ctx.fail(f'{name} raised {type(got).__name__}: {str(got)[:100]} where torch returns a tensor', case, repr(got), None,
                  tags=['raises', name.split('_')[0], type(got).__name__])
         return
-    gd = got.to_dense() if isinstance(got, PatternedTensor) else got
+    try:
+        gd = got.to_dense() if isinstance(got, PatternedTensor) else got
+    except Exception as e:  # noqa
+        ctx.fail(f'{name}: to_dense() of the result raised {type(e).__name__}: {str(e)[:100]}', case, repr(e), None,
+                 tags=['raises', 'result-to_dense', name.split('_')[0], type(e).__name__])
+        return
     if not same_dense(gd, want, 0.0 if exact else 1e-12):
         ctx.fail(f'{name}: result does not denote torch\'s result on the dense operands', case, gd.tolist(), want.tolist(),
                  tags=['value', name.split('_')[0]])
     if isinstance(got, PatternedTensor) and got.dtype != torch.bool and got.physical.numel() <= 300:
         reqs.append(f'C06.dense {ptgen.enc_pt(got)}'); meta.append((case, name, gd))
+
+
+def run_float32(ctx, n):
+    """the operations whose result is exact in any floating dtype, on float32 tensors with infinite / NaN defaults and entries: the default
+    of the result must be computed in the tensor's dtype (D47: nan_to_num_ replaced an infinite default by the float64 maximum, which a
+    float32 tensor cannot hold, so the following to_dense() raised)"""
+    U = [u_ for u_ in unary_ops() if u_[3] and u_[0].split('_')[0] in ('abs', 'neg', 'relu', 'nan', 'clamp', 'lt', 'le', 'gt', 'ge', 'eq')]
+    reqs, meta = [], []
+    for k in range(n):
+        nd = ctx.rng.choice([0, 1, 1, 2, 2])
+        types = [random_type(ctx.rng) for _ in range(nd)]
+        if math.prod(ty_numel(t) for t in types) > 200:
+            continue
+        t = random_pt(ctx.rng, types, dtype=torch.float32, defaults=[math.inf, -math.inf, math.nan, 0.0, 1.0, -1.0],
+                      special_values=(math.inf, -math.inf, 0.0, math.nan))
+        ctx.count('float32')
+        for name, f, g, exact, pre in U:
+            if pre is None or pre(t):
+                check(ctx, name + '_f32', [t], f, g, True, reqs, meta)
 
 
 def run_binary_representation(ctx):
@@ -358,6 +382,7 @@ def run(ctx):
     unclassified = public - EXCLUDED - TESTED
     if unclassified:
         ctx.fail('PatternedTensor has public operations that the check does not classify', sorted(unclassified), None, None, tags=['unclassified-op'])
+    run_float32(ctx, 60 if ctx.quick else 600)
     run_binary_representation(ctx)
     run_reshape_representation(ctx)
     reqs, meta = [], []
